@@ -88,8 +88,25 @@ def insideCs (pb : Problem) (isInside : PyV) (p : Nat × Nat) : Py (List Expr) :
     ensureV (← unop .invert (← cellAt isInside (max 0 (y - 1)) (max 0 (x - 1))))
   | none => .ok []
 
-/-- The program posted by `solve_castle_wall`; `prim` = `config.use_graph_primitive`. -/
-def programWith (prim : Bool) (pb : Problem) : Py PuzzleProg := do
+/-- Body of the inside / outside loop AFTER the proposed repair of the line-board defect (boards with one row
+or one column have no `is_inside` cell: every clue cell is outside, `inside = True` is unsatisfiable):
+```
+if height == 1 or width == 1:
+    if inside[y][x] is True: solver.ensure(False)
+elif inside[y][x] is True: ...
+```
+`fixed = false` is the code as it stands (IndexError on such boards). -/
+def insideCs' (fixed : Bool) (pb : Problem) (isInside : PyV) (p : Nat × Nat) : Py (List Expr) :=
+  if fixed && (pb.height == 1 || pb.width == 1) then do
+    let y : Int := p.1
+    let x : Int := p.2
+    match ← tableGet' pb.inside y x with
+    | some true => ensureV (.scalar (.litB false))
+    | _ => .ok []
+  else insideCs pb isInside p
+
+/-- The program posted by `solve_castle_wall`; `prim` = `config.use_graph_primitive`; `fixed`: see `insideCs'`. -/
+def programWith (prim : Bool) (pb : Problem) (fixed : Bool := false) : Py PuzzleProg := do
   let h := pb.height
   let w := pb.width
   let keys ← frameKeys (Frame.fresh 0 (h - 1) (w - 1)) []
@@ -97,7 +114,7 @@ def programWith (prim : Bool) (pb : Problem) : Py PuzzleProg := do
   let c1 ← (cellsOf h w).mapM (arrowCs pb s)
   let isInside : PyV := .arr2 true (h - 1) (w - 1) (bvars s.nvars ((h - 1) * (w - 1)))
   let c2 ← (cellsOf (h - 1) (w - 1)).mapM (parityCs s isInside)
-  let c3 ← (cellsOf h w).mapM (insideCs pb isInside)
+  let c3 ← (cellsOf h w).mapM (insideCs' fixed pb isInside)
   .ok { decls := s.decls ++ List.replicate ((h - 1) * (w - 1)) .bool,
         cs := s.cs ++ c1.flatten ++ c2.flatten ++ c3.flatten, keys := keys }
 
